@@ -528,6 +528,55 @@ def _matches(v, c):
     return False              # v is a leaf and c a container: the property says broadcast; keep such cases out of 'same'
 
 
+def holds_seq(c, n):
+    """a list/tuple of another length than n that holds, inside nested lists/tuples, a list/tuple of length n"""
+    return isinstance(c, (list, tuple)) and len(c) != n and any(
+        isinstance(e, (list, tuple)) and (len(e) == n or holds_seq(e, n)) for e in c)
+
+
+def holds_dict(c, keys):
+    """a dict with other keys that holds, inside nested dict values, a dict with exactly these keys"""
+    return isinstance(c, dict) and sorted(c) != keys and any(
+        isinstance(e, dict) and (sorted(e) == keys or holds_dict(e, keys)) for e in c.values())
+
+
+def searched(v, c):
+    """finding K3: somewhere on the way down `v` the companion `c` (or the part of it selected so far) is a container that does
+    NOT match the level (the statement: broadcast) but holds a matching container further inside - the code then looks inside it
+    (`_item_by_i` maps over the elements of a sequence of another length, `_item_by_key` over the values of a dict with other keys)"""
+    if not is_box(v) or not is_box(c):
+        return False
+    if isinstance(v, dict):
+        keys = sorted(v)
+        if isinstance(c, dict) and sorted(c) == keys:
+            return any(searched(v[k], c[k]) for k in v)
+        return holds_dict(c, keys) or any(searched(x, c) for x in v.values())
+    n = len(v)
+    if isinstance(c, (list, tuple)) and len(c) == n:
+        return any(searched(x, y) for x, y in zip(v, c))
+    return holds_seq(c, n) or any(searched(x, c) for x in v)
+
+
+def ref_lift_k3(fn, v, kw):
+    """what finding K3 describes: like the statement, but a sequence of another length is mapped over its elements and a dict
+    with other keys over its values when looking for the matching container (used only to recognise K3 precisely)"""
+    def by_i(c, i, n):
+        if isinstance(c, (list, tuple)):
+            return c[i] if len(c) == n else type(c)([by_i(e, i, n) for e in c])
+        return c
+
+    def by_key(c, k, keys):
+        if isinstance(c, dict):
+            return c[k] if sorted(c) == keys else {kk: by_key(e, k, keys) for kk, e in c.items()}
+        return c
+    if isinstance(v, dict):
+        keys = sorted(v)
+        return {k: ref_lift_k3(fn, v[k], {n: by_key(c, k, keys) for n, c in kw.items()}) for k in v}
+    if isinstance(v, (list, tuple)):
+        return type(v)([ref_lift_k3(fn, x, {n: by_i(c, i, len(v)) for n, c in kw.items()}) for i, x in enumerate(v)])
+    return fn(v, **kw)
+
+
 def ref_lift(fn, v, pos, kw):
     """the property statement for scalar / same-shape companions: same containers, leaves = fn(leaf, matched companions)"""
     def pick(c, step):
@@ -733,13 +782,14 @@ def laws(rng, tier, ctx):
             yield Finding('violation', dict(tag='law-pos-kw', lines=[line]),
                           'companions passed %s give %s but passed by keyword %s' % (calls[j][0], outs[j], outs[2]))
             continue
-        # (2) the statement on clear companions: same shape, leaves = f(leaf, element-wise / broadcast companions)
-        if clear_kind(v, b) and clear_kind(v, c):
-            count += 1
-            exp = 'ok ' + enc(ref_lift(named, v, [], dict(b=b, c=c)))
-            if outs[2] != exp:
-                yield Finding('violation', dict(tag='law-leaves', lines=[call_line([v], {'b': b, 'c': c})]),
-                              'lifted call gives %s, the statement requires %s' % (outs[2], exp))
+        # (2) the statement, level by level, for ANY companions: a companion that is a sequence of the length / a dict of the keys of
+        # the container being looped is matched element by element, everything else is passed on whole
+        count += 1
+        exp = 'ok ' + enc(ref_lift(named, v, [], dict(b=b, c=c)))
+        if outs[2] != exp:
+            k3 = (searched(v, b) or searched(v, c)) and outs[2] == 'ok ' + enc(ref_lift_k3(named, v, dict(b=b, c=c)))
+            yield Finding('violation', dict(tag='law-broadcast-searched-inside' if k3 else 'law-leaves', lines=[call_line([v], {'b': b, 'c': c})]),
+                          'lifted call gives %s, the statement requires %s' % (outs[2], exp))
     # (3) zipper: equal lengths zip, scalars and length-1 broadcast, ValueError iff two lengths differ and neither is 1
     for _ in range(n):
         case = gen_zip(rng, 'zipper')
@@ -774,14 +824,21 @@ def laws(rng, tier, ctx):
                               '%s(v) = %s but %s(%s(v)) = %s' % (nm, enc(once), nm, nm, enc(twice)))
     # (5) the public text / number helpers are the lifted leaf functions (shape and leaves), on same-shape / scalar companions
     for _ in range(n // 2):
-        name = rng.choice(['lower', 'upper', 'strip', 'proper', 'f12', 'as_float'])
+        name = rng.choice(['lower', 'upper', 'strip', 'proper', 'f12', 'as_float', 'split', 'replace'])
         pool_ = FLOATS if name == 'as_float' else ([1.25, 2.0, -0.5, 3, 'txt', None] if name == 'f12' else TEXTS)
         v = text_struct(rng, rng.choice([1, 2, 3, 4]), pool_, top=True)
+        kw = {}
+        if name == 'split':
+            kw = dict(sep=rng.choice([' ', ',', 'l']), dedup=rng.choice([False, True]))
+        if name == 'replace':
+            kw = dict(old=rng.choice([' ', 'o', 'l']), new=rng.choice([None, '_', '-']))
+            if isinstance(v, (list, tuple)) and v and rng.random() < 0.3:
+                kw['old'] = [rng.choice([' ', 'o', 'l']) for _ in v]      # as long as the text container: matched element by element
         count += 1
-        out = getattr(pyg_base, name)(copy.deepcopy(v))
-        exp = ref_lift(lib_leaf(name), v, [], {})
+        out = getattr(pyg_base, name)(copy.deepcopy(v), **copy.deepcopy(kw))
+        exp = ref_lift(lib_leaf(name), v, [], kw)
         if enc(out) != enc(exp):
-            yield Finding('violation', dict(tag='law-lib', lines=['(lift lib %s %s (D))' % (proto.hexs(name), enc(v))]),
+            yield Finding('violation', dict(tag='law-lib', lines=['(lift lib %s %s %s)' % (proto.hexs(name), enc(v), enc(kw))]),
                           '%s gives %s, leaf-wise application gives %s' % (name, enc(out), enc(exp)))
     # (6) the same statement on containers the wire format cannot spell: namedtuples (a tuple subclass built from separate
     # fields) and dicts whose keys are ints / strings / None mixed; companions scalar or of the same shape
@@ -858,4 +915,8 @@ def _k2(f):
     return one_list(v) or (isinstance(v, tuple) and len(v) == 1 and one_list(v[0]))
 
 
-MATCHERS = {'as_tuple_list_of_one_list': _k2}
+def _k3(f):
+    return f.case.get('tag') == 'law-broadcast-searched-inside'
+
+
+MATCHERS = {'as_tuple_list_of_one_list': _k2, 'companion_of_other_shape_is_searched_inside': _k3}
